@@ -33,6 +33,15 @@ func (a *AuditLogIngester) Ingest(ctx context.Context) error {
 }
 
 func (a *AuditLogIngester) Process(ctx context.Context, line string) error {
-	a.AuditLogChan <- line
-	return nil
+	// The channel is bounded. If its consumer has stopped, e.g.
+	// because the auditd processor failed, a plain send blocks
+	// forever once the buffer is full, and the ingester (and with
+	// it the whole daemon) never exits. Give up when the context
+	// is cancelled.
+	select {
+	case <-ctx.Done():
+		return ctx.Err()
+	case a.AuditLogChan <- line:
+		return nil
+	}
 }
